@@ -55,5 +55,7 @@ def limit_memory():
 
 if __name__ == "__main__":
     limit_memory()
+    if "--replay" not in sys.argv:
+        framework.COV = framework.start_coverage()
     prop = sys.argv[1]
     framework.main(load(prop), sys.argv[2:])
